@@ -330,6 +330,31 @@ def gen_specs(chk, pid):
             ops.append(("remove", blocks.TY[ks[pos]]))
             ops.append(("add", rng.choice(pool["FT"]), None) if rng.random() < 0.5 else ("set", rng.choice(pool[ks[pos]])))
             specs.append(("crafted N=%d empty" % n, init, [ops[:2], ops[2:]], "remove pos=%d free_after=%d" % (pos, nfree)))
+    # --- 3b. boundary strata: the 14-slot table filled completely; blocks of identical size next to each other;
+    #         dates at the end of the 32-bit range
+    for j in range(2 if quick else 10):
+        init = crafted(chk.work, "full14_%d" % j, 14, opaque_live(rng, 5), rng)
+        adds = [("add", rng.choice(pool[k][1:3]), "slot") for k in blocks.KINDS]           # 5 + 9 = 14 live blocks
+        rng.shuffle(adds)
+        tail = [("set", rng.choice(pool["EV"])), ("replace", rng.choice(pool["D3"]), None), ("add", pool["EM"][1], "no room"),
+                ("remove", rng.choice(OPAQUE_TYPES)), ("remove", blocks.TY[rng.choice(blocks.KINDS)]), ("add", pool["FT"][1], "again"),
+                ("set", rng.choice(pool["FT"])), ("remove", 16), ("set", rng.choice(pool["EV"]))]
+        specs.append(("crafted N=14 live=5", init, [adds[:5], adds[5:] + tail[:3], tail[3:]], "table filled to the 14th slot"))
+    for j in range(2 if quick else 10):
+        ev = rng.choice(pool["EV"][1:3])
+        size = len(ev.as_model()[3][0])
+        twin = [(ty, 1, bytes(rng.getrandbits(8) for _ in range(size)), T0 - 5, T0 - 4, T0 - 3, "same size") for ty in rng.sample(OPAQUE_TYPES, 2)]
+        init = os.path.join(chk.work, "same%d.tdf" % j)
+        craft_file(init, 6, twin)
+        ops = [("add", ev, None), ("remove", twin[0][0]), ("add", rng.choice(pool["EM"][1:3]), None), ("remove", 16), ("add", ev, "back"),
+               ("remove", twin[1][0])]
+        specs.append(("crafted N=6 live=2 (same-size blocks)", init, [ops[:3], ops[3:]], "blocks of identical size"))
+    for j, stamp in enumerate((2 ** 31 - 1, 2 ** 31 - 2, 0, 1)):
+        sp = copy.deepcopy(rng.choice(pool["EV"][1:3]))
+        sp.cd, sp.md = stamp, max(stamp - 1, 0)
+        init = crafted(chk.work, "date%d" % j, 3, [], rng)
+        specs.append(("crafted N=3 empty", init, [[("add", sp, "dated"), ("add", pool["EM"][1], None), ("set", sp), ("remove", 11)]],
+                      "dates at the ends of the 32-bit range"))
     # --- 4. large payloads: tail moves of more than 64 KiB
     bigs = [s for s in pool["EM"] if len(repr(s.v)) > 100000]
     for j in range(2 if quick else 8):
